@@ -26,6 +26,7 @@ import (
 	"os"
 	"regexp"
 	"runtime/debug"
+	"sort"
 	"strings"
 	"time"
 
@@ -43,6 +44,7 @@ type input struct {
 	Name string
 	Src  string
 	Res  string // the kind of state the input touches (used to group signatures by defect)
+	Obs  bool   // the input only observes state (never part of a signature's predecessor set)
 	// BatchAfter is what stands for this input in later batch programs when it raised at run time in the session
 	// (the statements it executed before the throw); "" = the input itself.
 	BatchAfter string
@@ -53,15 +55,15 @@ type input struct {
 // source name or on an address (closures, objects).
 var alphabet = []input{
 	{Name: "deflocal", Res: "local", Core: true, Src: `a := 1`},
-	{Name: "uselocal", Res: "local", Core: true, Src: `println(a)`},
+	{Name: "uselocal", Obs: true, Res: "local", Core: true, Src: `println(a)`},
 	{Name: "relocal", Res: "local", Src: `a := "s"`},                                                           // defines a String local, or is a type error when a: Int exists
 	{Name: "defmeth", Res: "method", Core: true, Src: "def m27: Int then 1\ndef caller27: Int then m27() + 1"}, // valid; invalid override when m27: String exists
-	{Name: "callmeth", Res: "method", Core: true, Src: `println(caller27())`},                                  // through a method compiled earlier
+	{Name: "callmeth", Obs: true, Res: "method", Core: true, Src: `println(caller27())`},                       // through a method compiled earlier
 	{Name: "redefsame", Res: "method", Core: true, Src: `def m27: Int then 100`},                               // same signature, new body
 	{Name: "redefmeth", Res: "method", Core: true, Src: "def m27: String then \"r\"\nprintln(m27())"},          // new return type: valid only while m27 is undefined
 	{Name: "defclass", Res: "class", Core: true, Src: "class Foo27\n  def k: Int then 5\nend"},
 	{Name: "reopen", Res: "class", Src: "class Foo27\n  def j: Int then 6\nend\nprintln(Foo27().j)"},
-	{Name: "useclass", Res: "class", Core: true, Src: `println(Foo27().k + 1)`},
+	{Name: "useclass", Obs: true, Res: "class", Core: true, Src: `println(Foo27().k + 1)`},
 	{Name: "defconst", Res: "const", Src: "const K27 = 7\nprintln(K27)"},
 	// instance variables: a class with an instance variable, then a reopening that adds an instance variable (no locals involved)
 	{Name: "defiv", Res: "ivar", Core: true, Src: "class Iv27\n  var @x: Int\n  init(@x); end\n  def x: Int then @x\nend\nprintln(Iv27(1).x)"},
@@ -179,9 +181,9 @@ func (s *session) eval(src string) (o obs) {
 	if !rerr.IsUndefined() {
 		s.th.PrintError()
 		s.th.ResetError()
-		return obs{Verdict: "raised", Out: s.out.String(), Err: rerr.Class().Name + " " + rerr.Inspect()}
+		return obs{Verdict: "raised", Out: s.out.String(), Err: rerr.Class().Name + " " + noAddr(rerr.Inspect())}
 	}
-	return obs{Verdict: "ok", Out: s.out.String(), Val: val.Inspect()}
+	return obs{Verdict: "ok", Out: s.out.String(), Val: noAddr(val.Inspect())}
 }
 
 var sessCache = map[string][]obs{}
@@ -263,9 +265,9 @@ func runBatch(src string) batchRes {
 	case res.Rejected:
 		o = obs{Verdict: "rejected", Diags: res.Diags}
 	case res.Err != "":
-		o = obs{Verdict: "raised", Out: out, Err: res.ErrClass + " " + res.Err}
+		o = obs{Verdict: "raised", Out: out, Err: res.ErrClass + " " + noAddr(res.Err)}
 	default:
-		o = obs{Verdict: "ok", Out: out, Val: res.Value}
+		o = obs{Verdict: "ok", Out: out, Val: noAddr(res.Value)}
 	}
 	br := batchRes{src: src, obs: o}
 	if len(batchCache) > 100000 {
@@ -293,6 +295,11 @@ func render(seq []int, res []obs) string {
 	}
 	return b.String()
 }
+
+var addrRe = regexp.MustCompile(`&: 0x[0-9a-f]+`)
+
+// noAddr removes heap addresses from inspect texts.
+func noAddr(s string) string { return addrRe.ReplaceAllString(s, "&: 0x…") }
 
 var diagLoc = regexp.MustCompile(`^[^ ]*:\d+:\d+: `)
 var backq = regexp.MustCompile("`[^`]*`")
@@ -406,9 +413,9 @@ func checkSession(r *engine.R, seq []int) {
 				red, rres = bred, bres
 			}
 			want := obsAt(red, d, seq, rejected, rres)
-			sig := fmt.Sprintf("rejected input leaves a trace: rejected=%s%s damages=%s (%s)", rname, rdiag, alphabet[seq[d]].Res, diffShape(res[d], want))
-			r.Violation(sig, fmt.Sprintf("history: %s\n%sinput %s was rejected, yet without it the session is\n%sinput %d (%s) gives  %s  with the rejected input and  %s  without it\n%s",
-				names(seq), render(seq, res), rname, render(red, rres), d, alphabet[seq[d]].Name, res[d], want, res[d].Stack), input)
+			sig := fmt.Sprintf("rejected input leaves a trace: rejected=%s%s damages=%s", rname, rdiag, alphabet[seq[d]].Res)
+			r.Violation(sig, fmt.Sprintf("history: %s\n%sinput %s was rejected, yet without it the session is\n%sinput %d (%s) gives  %s  with the rejected input and  %s  without it (%s)\n%s",
+				names(seq), render(seq, res), rname, render(red, rres), d, alphabet[seq[d]].Name, res[d], want, diffShape(res[d], want), res[d].Stack), input)
 		}
 	}
 
@@ -433,10 +440,11 @@ func checkSession(r *engine.R, seq []int) {
 		if br.obs.key() != o.key() {
 			var same []int // accepted predecessors touching the same kind of state
 			for _, p := range acc {
-				if alphabet[p].Res == alphabet[a].Res && !contains(same, p) {
+				if alphabet[p].Res == alphabet[a].Res && !alphabet[p].Obs && !contains(same, p) {
 					same = append(same, p)
 				}
 			}
+			sort.Ints(same) // a set: the order of the predecessors is not part of the defect
 			sig := fmt.Sprintf("session differs from batch: input=%s after=%s (%s)", alphabet[a].Name, accNames(same), diffShape(o, br.obs))
 			r.Violation(sig, fmt.Sprintf("history: %s\n%sinput %d (%s): the session gave  %s\nbut the batch program of all accepted inputs gives  %s\nbatch program:\n%s%s",
 				names(seq), render(seq, res), i, alphabet[a].Name, o, br.obs, br.src, o.Stack), input)
@@ -502,9 +510,10 @@ func main() {
 		Assume: []string{"the session mirrors repl.evaluator.evaluate through the exported API it calls (checker.New, SetAdditionalAbortChecks, SetIncremental, CheckSourceBytecode, ClearErrors, vm.New, InterpretREPL, PrintError, ResetError)",
 			"method bodies compiled one at a time (MethodCheckConcurrencyLimit=1)",
 			"an input that raised at run time is represented in later batch programs by the statements it executed before the throw (it declares nothing)"},
-		CaseTimeout: 5 * time.Minute,
-		Setup:       func(c *engine.Ctx) { elkrun.Init() },
-		Run:         run,
+		CaseTimeout:      5 * time.Minute,
+		ThoroughDeadline: 28 * time.Minute,
+		Setup:            func(c *engine.Ctx) { elkrun.Init() },
+		Run:              run,
 	})
 }
 
